@@ -7,6 +7,8 @@ D=$(readlink -f "$1"); WT=$(readlink -f "$2")
 [ -f "$D/patch.diff" ] && [ -f "$D/demo.rs" ] || { echo "confirm: missing patch.diff/demo.rs in $D"; exit 2; }
 FEAT=$(python3 -c "import json,sys; print(json.load(open('$D/meta.json')).get('features','') or '')" 2>/dev/null)
 FARG=(); [ -n "$FEAT" ] && FARG=(--features "$FEAT")
+NDF=$(python3 -c "import json,sys; print('1' if json.load(open('$D/meta.json')).get('no_default_features') else '')" 2>/dev/null)
+[ -n "$NDF" ] && FARG=(--no-default-features "${FARG[@]}")
 cd "$WT" || exit 2
 T=$(mktemp -d /tmp/confirm.XXXXXX)
 git checkout -q -- . ; rm -f tests/demo.rs; mkdir -p tests
